@@ -530,13 +530,6 @@ class Scope(dict[str, Any]):
 
     def set_global(self, name: str, value: Any) -> None:
         root = getattr(self, "_root", self)
-
-        # A value taken over from the root when this scope was copied
-        # is no local definition and must not hide the new one.
-        if self is not root and name in root and \
-                dict.get(self, name, marker) is dict.get(root, name):
-            dict.pop(self, name)
-
         root[name] = value
 
     def get_name(self, key: str) -> Any:
